@@ -1602,7 +1602,7 @@ fn cast_num(
         (false, false) => {
             // int to int
             match cast_from.bit_width().cmp(&cast_to.bit_width()) {
-                std::cmp::Ordering::Less if cast_from.signed && cast_to.signed => {
+                std::cmp::Ordering::Less if cast_from.signed => {
                     builder.ins().sextend(cast_to.ty, val)
                 }
                 std::cmp::Ordering::Less => builder.ins().uextend(cast_to.ty, val),
